@@ -53,7 +53,8 @@ theorem translatePt_getD (vec pt : List K) (j : ℕ) (h : pt.length = vec.length
   exact vadd_getD pt vec j h
 
 /-- the rotation of the model about the z axis is the linear map with matrix `[[c, -s], [s, c]]`
-    on the first two coordinates, for ANY numbers `c`, `s` -/
+    on the first two coordinates, for ANY numbers `c`, `s`
+    (Unfolding lemma (the definition of `rotatePt` on a 3-D point, by `simp`).) -/
 theorem rotatePt_z (c s x y z : K) : rotatePt 2 c s [x, y, z] = [x * c - y * s, y * c + x * s, z] := by
   simp [rotatePt]
 
@@ -163,7 +164,8 @@ theorem affine_maps_compose {d : ℕ} {f g : List K → List K} {A A' : ℕ → 
   AffOn.comp hf hg
 
 /-- `translate` / `scale` of the model act on the net exactly in the form the theorems above are about
-    (and change nothing else). -/
+    (and change nothing else).
+    (Unfolding lemma (`rfl` components): it displays what the model functions are.) -/
 theorem translate_scale_net (S : Shape K) (vec : List K) (m : K) :
     (translate S vec).net = S.net.map (onCartesian S.rat (translatePt vec)) ∧
     (scale S m).net = S.net.map (onCartesian S.rat (scalePt m)) ∧
